@@ -248,6 +248,37 @@ where
     doc
 }
 
+/// The comments attached to a token without the token itself (for delimiter tokens that the
+/// printer re-creates on its own): leading comments, trailing comments, and whether the trailing
+/// ones end with a line comment (which already breaks the line).
+fn emit_token_comments<'a, D, A>(
+    token_index: usize,
+    ctx: &PrintContext,
+    allocator: &'a D,
+) -> (DocBuilder<'a, D, A>, DocBuilder<'a, D, A>, bool)
+where
+    D: DocAllocator<'a, A>,
+    D::Doc: Clone,
+{
+    let mut lead = allocator.nil();
+    let mut trail = allocator.nil();
+    let mut ends_line = false;
+    if let Some(idx) = find_preparsed_index(token_index, ctx.preparsed) {
+        for trivia in ctx.preparsed.get_leading_trivia(idx, ctx.tokens) {
+            lead = lead.append(emit_trivia(trivia, ctx.source, allocator));
+        }
+        for trivia in ctx.preparsed.get_trailing_trivia(idx, ctx.tokens) {
+            match trivia.kind {
+                TokenKind::SingleLineComment => ends_line = true,
+                TokenKind::MultiLineComment => ends_line = false,
+                _ => {}
+            }
+            trail = trail.append(emit_trivia(trivia, ctx.source, allocator));
+        }
+    }
+    (lead, trail, ends_line)
+}
+
 /// Emit a trivia token (comment or whitespace)
 fn emit_trivia<'a, D, A>(trivia: &Token, source: &str, allocator: &'a D) -> DocBuilder<'a, D, A>
 where
@@ -1728,6 +1759,8 @@ where
 {
     // Collect items between delimiters, excluding commas
     let mut items = Vec::new();
+    // per item: the comments before / after the comma that follows it, and whether they end the line
+    let mut seps: Vec<(DocBuilder<'a, D, A>, DocBuilder<'a, D, A>, bool)> = Vec::new();
     let mut current: Option<DocBuilder<'a, D, A>> = None;
     let mut open_doc = allocator.nil();
     let mut close_doc = allocator.nil();
@@ -1748,9 +1781,18 @@ where
                     continue;
                 }
                 TokenKind::Comma => {
-                    // Skip commas - we'll add them with proper breaking
+                    // The comma is re-created with proper breaking; the comments attached to it
+                    // stay around it (`a /* x */, // y`), so that a second formatting finds them
+                    // attached to the same token.
                     if let Some(item) = current.take() {
                         items.push(item);
+                    }
+                    let (lead, trail, ends_line) = emit_token_comments(*token_index, ctx, allocator);
+                    while seps.len() + 1 < items.len() {
+                        seps.push((allocator.nil(), allocator.nil(), false));
+                    }
+                    if seps.len() < items.len() {
+                        seps.push((lead, trail, ends_line));
                     }
                     continue;
                 }
@@ -1777,7 +1819,25 @@ where
     } else {
         // Use softline between items (after comma), but not after opening delimiter
         // This prioritizes breaking at binary operators over breaking at function call boundaries
-        let items_doc = allocator.intersperse(items, breakable_comma(allocator));
+        let n_items = items.len();
+        let mut items_doc = allocator.nil();
+        for (i, item) in items.into_iter().enumerate() {
+            items_doc = items_doc.append(item);
+            let sep = seps.get(i).cloned();
+            let last = i + 1 == n_items;
+            match (sep, last) {
+                (Some((lead, trail, ends_line)), false) => {
+                    items_doc = items_doc.append(lead).append(allocator.text(",")).append(trail);
+                    if !ends_line {
+                        items_doc = items_doc.append(allocator.softline());
+                    }
+                }
+                (None, false) => items_doc = items_doc.append(breakable_comma(allocator)),
+                // a trailing comma is dropped, its comments are kept
+                (Some((lead, trail, _)), true) => items_doc = items_doc.append(lead).append(trail),
+                (None, true) => {}
+            }
+        }
         // Wrap in group for proper line breaking
         open_doc
             .append(items_doc.nest(get_indent_size() as isize))
